@@ -33,7 +33,7 @@ def main():
         rc, o = sh("git apply %s/patch.diff && git apply %s/demo.diff" % (d, d))
         r["applies"] = rc == 0
         rc1, o1 = sh(cmd)
-        r["demo_with_patch_fails"] = rc1 != 0 and ("test result: FAILED" in o1 or "panicked" in o1)
+        r["demo_with_patch_fails"] = rc1 != 0 and ("test result: FAILED" in o1 or "panicked" in o1 or "test failed" in o1)
         r["demo_with_patch_tail"] = o1[-600:]
         reset()
         sh("git apply %s/demo.diff" % d)
